@@ -5,6 +5,7 @@ package main
 import (
 	"fmt"
 	"os"
+	"runtime"
 	"go/types"
 	"sort"
 	"strings"
@@ -216,6 +217,11 @@ func (st *State) heapSet(key, sort, term string) {
 
 // havocAll forgets every heap array and ghost variable (call to code without a frame).
 func (st *State) havocAll() {
+	if os.Getenv("TVDBG4") != "" {
+		buf := make([]byte, 2048)
+		buf = buf[:runtime.Stack(buf, false)]
+		fmt.Fprintf(os.Stderr, "HAVOCALL %s\n", strings.ReplaceAll(string(buf), "\n", " | ")[:1200])
+	}
 	st.fx.nfresh++
 	st.epoch = st.fx.nfresh
 	st.heap = map[string]string{}
